@@ -230,7 +230,15 @@ pub fn cases(opts: &Opts) -> Vec<Case> {
             name.push_str("+2badfiles");
         }
         let keep = if i % 3 == 2 { None } else { Some(proj.clone()) };
-        out.push(Case { name, files: proj.render(), proj: keep, gen_index: Some(i) });
+        let mut files = proj.render();
+        if i % 9 == 4 {
+            // two files of one directory whose names differ only in letter case (legal on a
+            // case-sensitive file system): an order that ignores case leaves them tied
+            if case_twin_rename(&mut files) {
+                name.push_str("+case-twin-files");
+            }
+        }
+        out.push(Case { name, files, proj: keep, gen_index: Some(i) });
     }
     // single-file programs with many compiler-generated helper items (Ref / array / tuple /
     // closure-environment / dyn types, several instantiations of generic functions): the order
@@ -246,6 +254,39 @@ pub fn cases(opts: &Opts) -> Vec<Case> {
         out.push(Case { name: format!("conc/{i}"), files, proj: None, gen_index: None });
     }
     out
+}
+
+/// Rename the second file of the first multi-file directory to the upper-case twin of the first
+/// (`Pa/a_lib.gom`, `Pa/b.gom` -> `Pa/a_lib.gom`, `Pa/A_lib.gom`).
+pub fn case_twin_rename(files: &mut Files) -> bool {
+    let mut by_dir: BTreeMap<String, Vec<String>> = BTreeMap::new();
+    for f in files.keys().filter(|f| f.ends_with(".gom")) {
+        let (dir, _) = f.rsplit_once('/').unwrap_or(("", f.as_str()));
+        by_dir.entry(dir.to_string()).or_default().push(f.clone());
+    }
+    for (dir, fs) in by_dir {
+        // never the entry file's directory twin `Main.gom` (C14 has that one), and only plain names
+        let cands: Vec<&String> = fs.iter().filter(|f| !f.ends_with("main.gom")).collect();
+        if cands.len() >= 2 {
+            let first = cands[0].clone();
+            let second = cands[1].clone();
+            let base = first.rsplit_once('/').map(|x| x.1).unwrap_or(first.as_str());
+            let mut cs = base.chars();
+            let twin_base: String = match cs.next() {
+                Some(c) if c.is_ascii_lowercase() => c.to_ascii_uppercase().to_string() + cs.as_str(),
+                _ => continue,
+            };
+            let twin = if dir.is_empty() { twin_base } else { format!("{dir}/{twin_base}") };
+            if files.contains_key(&twin) {
+                continue;
+            }
+            if let Some(b) = files.remove(&second) {
+                files.insert(twin, b);
+                return true;
+            }
+        }
+    }
+    false
 }
 
 /// Extra functions using a random selection, in random order, of Ref / array / tuple types.
